@@ -5,6 +5,7 @@ package tss
 
 import (
 	"context"
+	"errors"
 	"fmt"
 	"sync"
 	"time"
@@ -132,29 +133,36 @@ func (c *Coordinator) handleError(ctx context.Context, err error, tssProcesses [
 		return c.watchExecution(ctx, tssProcesses[0], peer.ID(""))
 	})
 	sessionID := tssProcesses[0].SessionID()
-	switch err := err.(type) {
-	case *CoordinatorError:
-		{
-			log.Warn().Str("SessionID", sessionID).Msgf("Tss process failed with error %+v", err)
 
-			excludedPeers := []peer.ID{err.Peer}
+	// errors returned by the process pools are aggregated (joined), so the cause has to be
+	// looked up inside the returned error instead of switching on its outermost type
+	var coordinatorErr *CoordinatorError
+	var communicationErr *comm.CommunicationError
+	var tssErr *tss.Error
+	var subsetErr *SubsetError
+	switch {
+	case errors.As(err, &coordinatorErr):
+		{
+			log.Warn().Str("SessionID", sessionID).Msgf("Tss process failed with error %+v", coordinatorErr)
+
+			excludedPeers := []peer.ID{coordinatorErr.Peer}
 			rp.Go(func(ctx context.Context) error { return c.retry(ctx, tssProcesses, resultChn, excludedPeers) })
 		}
-	case *comm.CommunicationError:
+	case errors.As(err, &communicationErr):
 		{
-			log.Err(err).Str("SessionID", sessionID).Msgf("Tss process failed with error %+v", err)
+			log.Err(communicationErr).Str("SessionID", sessionID).Msgf("Tss process failed with error %+v", communicationErr)
 			rp.Go(func(ctx context.Context) error { return c.retry(ctx, tssProcesses, resultChn, []peer.ID{}) })
 		}
-	case *tss.Error:
+	case errors.As(err, &tssErr):
 		{
-			log.Err(err).Str("SessionID", sessionID).Msgf("Tss process failed with error %+v", err)
-			excludedPeers, err := common.PeersFromParties(err.Culprits())
+			log.Err(tssErr).Str("SessionID", sessionID).Msgf("Tss process failed with error %+v", tssErr)
+			excludedPeers, err := common.PeersFromParties(tssErr.Culprits())
 			if err != nil {
 				return err
 			}
 			rp.Go(func(ctx context.Context) error { return c.retry(ctx, tssProcesses, resultChn, excludedPeers) })
 		}
-	case *SubsetError:
+	case errors.As(err, &subsetErr):
 		{
 			// wait for start message if existing singing process fails
 			rp.Go(func(ctx context.Context) error {
